@@ -138,7 +138,9 @@ PROPS = {
         # TestC14 (the queue harness) runs here for its `endblock` observable: after the consensus end-blocker every queued
         # message is either fully processed or exactly as it was (estimate elected <=> fees attached), whatever its neighbours did
         extra_tests=[{"test": "TestC09Gate", "dir": "C09G", "n_quick": 4000, "n_thorough": 40000},
-                     {"test": "TestC14", "dir": "C14", "n_quick": 150, "n_thorough": 1200}],
+                     {"test": "TestC14", "dir": "C14", "n_quick": 150, "n_thorough": 1200},
+                     # the bridge module's EndBlock with collaborators that panic (batch build, tally, time-out sweep)
+                     {"test": "TestC09Sky", "dir": "C09S", "n_quick": 40, "n_thorough": 400}],
         n_quick=8, n_thorough=8, thorough_seeds=4, timeout_quick=900, timeout_thorough=5000, env_thorough={"VERIF_BLOCKS": "10100"},
         spec_ops=["block", "gate", "endblock"],
         level_text="PARTIAL. Lean 4 theorems: the per-message loops of the consensus end-blocker treat a failing message exactly as if it were absent (failing_message_is_skipped, every_message_gets_its_turn; tied to the source by the regenerated fact that no statement inside those loops leaves the function with an error); the fee arithmetic on the end-block path is total with explicit error outcomes for every multiplicator (missing, negative, astronomically large) and estimate, and — by decide over the inventory "
